@@ -46,6 +46,12 @@
 #define MIN(a, b) ((a) > (b) ? (b) : (a))   ///< Returns the minimum of a and b
 
 void reb_integrator_part1(struct reb_simulation* r){
+	if (r->integrator != REB_INTEGRATOR_BS && r->ri_bs.nbody_ode){
+		// Left over from an earlier use of the BS integrator. It is still in the list of ODEs and
+		// would advance the particles a second time, on top of the integrator that is used now.
+		reb_ode_free(r->ri_bs.nbody_ode);
+		r->ri_bs.nbody_ode = NULL;
+	}
 	switch(r->integrator){
 		case REB_INTEGRATOR_IAS15:
 			reb_integrator_ias15_part1(r);
